@@ -18,7 +18,7 @@ Definition tri := (vec * vec * vec)%type.
 Fixpoint le (k : nat) (n : N) : list byte :=
   match k with
   | O => []
-  | S k' => n mod 256 :: le k' (n / 256)
+  | S k' => N.land n 255 :: le k' (N.shiftr n 8)     (* byte(v), v >> 8 *)
   end.
 
 Fixpoint unle (bs : list byte) : N :=
@@ -211,17 +211,22 @@ Qed.
 Lemma le_length k n : length (le k n) = k.
 Proof. revert n; induction k as [|k IH]; intros n; cbn [le length]; [reflexivity|now rewrite IH]. Qed.
 
+Lemma low_byte n : N.land n 255 = n mod 256.
+Proof. change 255 with (N.ones 8). rewrite N.land_ones. reflexivity. Qed.
+Lemma high_bytes n : N.shiftr n 8 = n / 256.
+Proof. rewrite N.shiftr_div_pow2. reflexivity. Qed.
+
 Lemma le_bytes_ok k n : bytes_ok (le k n).
 Proof.
   revert n; induction k as [|k IH]; intros n; cbn [le]; constructor; [|apply IH].
-  apply N.mod_lt. discriminate.
+  rewrite low_byte. apply N.mod_lt. discriminate.
 Qed.
 
 Lemma unle_le k n : n < 256 ^ N.of_nat k -> unle (le k n) = n.
 Proof.
   revert n; induction k as [|k IH]; intros n Hn.
   - cbn in *. lia.
-  - cbn [le unle]. rewrite IH.
+  - cbn [le unle]. rewrite low_byte, high_bytes, IH.
     + pose proof (N.div_mod n 256 ltac:(discriminate)). lia.
     + rewrite Nat2N.inj_succ, N.pow_succ_r' in Hn. apply N.div_lt_upper_bound; [discriminate | lia].
 Qed.
@@ -325,9 +330,11 @@ Section WriterLemmas.
     intros H Ht. induction H as [|w r Hw Hr IH].
     - cbn. destruct tail as [|a [|b [|c [|d ?]]]]; cbn in *; try reflexivity; lia.
     - cbn [encode_words flat_map]. fold (encode_words r). rewrite <- app_assoc.
-      change (le 4 w) with [w mod 256; w / 256 mod 256; w / 256 / 256 mod 256; w / 256 / 256 / 256 mod 256].
+      change (le 4 w) with [N.land w 255; N.land (N.shiftr w 8) 255; N.land (N.shiftr (N.shiftr w 8) 8) 255;
+                            N.land (N.shiftr (N.shiftr (N.shiftr w 8) 8) 8) 255].
       cbn [app words_of]. rewrite IH. f_equal.
-      change [w mod 256; w / 256 mod 256; w / 256 / 256 mod 256; w / 256 / 256 / 256 mod 256] with (le 4 w).
+      change [N.land w 255; N.land (N.shiftr w 8) 255; N.land (N.shiftr (N.shiftr w 8) 8) 255;
+              N.land (N.shiftr (N.shiftr (N.shiftr w 8) 8) 8) 255] with (le 4 w).
       apply unle_le4, Hw.
   Qed.
 
@@ -467,19 +474,14 @@ Fixpoint tris_eqb (l m : list tri) : bool :=
   end.
 
 (* file contents are shipped as 7-byte little-endian chunks in primitive integers
-   (the last one shorter); same bytes as [le], computed with shifts *)
-Fixpoint le_bits (k : nat) (n : N) : list byte :=
-  match k with
-  | O => []
-  | S k' => N.land n 255 :: le_bits k' (N.shiftr n 8)
-  end.
+   (the last one shorter) *)
 Definition chunk := PrimInt63.int.
 Fixpoint unpack (len : N) (chunks : list chunk) : list byte :=
   match chunks with
   | [] => []
   | c :: r =>
     let n := Z.to_N (Uint63.to_Z c) in
-    if len <? 7 then le_bits (N.to_nat len) n else le_bits 7 n ++ unpack (len - 7) r
+    if len <? 7 then le (N.to_nat len) n else le 7 n ++ unpack (len - 7) r
   end.
 
 Fixpoint bytes_eqb (l m : list byte) : bool :=
@@ -563,9 +565,11 @@ Definition case_ok := case_check files_agree.
 Definition case_id (c : case) : N := let '(id, _, _, _, _) := c in id.
 Definition mismatches (cs : list case) : list N :=
   map case_id (filter (fun c => negb (case_ok c)) cs).
-(* cases that agree only within the tolerance on Normal words (information, not an alarm) *)
+(* cases that are not bit-exact (Normal words NaN-class-equal but otherwise identical
+   patterns): with no mismatch these are the cases agreeing only within the tolerance
+   (information, not an alarm) *)
 Definition inexact (cs : list case) : list N :=
-  map case_id (filter (fun c => case_ok c && negb (case_check files_exact c)) cs).
+  map case_id (filter (fun c => negb (case_check files_exact c)) cs).
 
 (* conversions alone: id, x, Float32bits(float32(x)), float64(float32(x)) *)
 Definition conv_case := (N * float * N * float)%type.
